@@ -9,7 +9,7 @@ VERIF = os.path.dirname(os.path.dirname(os.path.abspath(__file__)))
 REPO = os.environ.get("ENR_REPO", "/repo")
 BUILD = os.path.join(VERIF, "build")
 WORK = os.path.join(VERIF, "work")
-IMPL = os.path.join(VERIF, "harness", "target", "debug", "enr_impl")
+IMPL = os.environ.get("ENR_IMPL", os.path.join(VERIF, "harness", "target", "debug", "enr_impl"))  # ENR_IMPL: an instrumented build, for coverage measurement only
 MODEL = os.path.join(BUILD, "model_run")
 COQ = os.path.join(VERIF, "coq")
 KTS = ["k256", "libsecp", "ed", "comb", "toy"]
